@@ -3,5 +3,5 @@
 P=$1; ID=$2; shift 2
 cd /verif
 git -C /repo apply "$P" || { echo "patch does not apply"; exit 3; }
-trap 'git -C /repo checkout -- .; rm -rf /verif/replays/'$ID'' EXIT
+trap 'git -C /repo checkout -- .; rm -rf /verif/replays/'$ID'; /verif/scripts/build_lib.sh sim >/dev/null 2>&1; make -s -C /verif -j16 >/dev/null 2>&1' EXIT
 ./check $ID quick --no-evidence "$@" 2>&1 | grep -E "^VIOLATION|^  rule=|^C[0-9]+ quick|KNOWN|MACHINERY" | head -12
